@@ -20,7 +20,7 @@ CLAIMED = {
    "DESIGN.md §7 C09, §15"),
  "C10": ("exploration",
    "Cluster executions with hostile generators on all five interfaces (garbage/mutated consensus messages with absurd slots, forged votes/certs, mutated shreds, hostile repair requests and unsolicited responses, oversize/empty/maximal transactions) and a Byzantine leader signing malformed blocks, interleaved with normal traffic: no panic located in the repository's sources in any task of a correct node, and after the hostile phase (variant with stabilisation) every live correct node keeps finalizing within the C02 bound.",
-   "Panics are attributed by source location; a task that ends silently without panicking is only noticed through the liveness half. Hostile generators are those of sim/src/hostile.rs and adv.rs.",
+   "Panics are attributed by source location; a task that ends silently without panicking is only noticed through the liveness half. Hostile generators are those of sim/src/hostile.rs and adv.rs. The crate's own receive loops (UdpNetwork, SimulatedNetwork) are exercised by a separate transport variant with hostile datagram scripts; its UdpNetwork half uses real loopback sockets (not schedule-controlled; only timing-independent facts are demanded, skipped if no socket can be bound).",
    "DESIGN.md §7 C10"),
  "C19": ("exploration",
    "Every message kind (votes; certificates for 1..2048 validators incl. both halves and the highest index; shreds of all four shredders at boundary sizes; repair requests/responses with proofs for up to 1024 slices; transactions) is encoded, checked to fit 1500 bytes, round-tripped, rejected with trailing bytes and out-of-range indices, and corrupted at byte level (reject or stable re-encoding, never a panic); arbitrary byte strings go to all five decoders; the same monitor runs on every message real nodes emit in cluster runs.",
@@ -72,7 +72,7 @@ CLAIMED = {
    "DESIGN.md §7 C08"),
  "C18": ("exploration",
    "recover_from_standstill() is triggered after sampled prefixes (including the empty one) of vote-level and certificate-level pool histories; the bundle must prove the finalized slot, contain every later certificate held and every own vote for later slots, validate element by element, and bring a fresh pool to the same finalized slot (and, on consistent histories, the same ready parents for the following window).",
-   "Prefixes are sampled, not all enumerated. Votor's forwarding of the bundle is exercised in the cluster world (real standstill loop under hook H1), not here.",
+   "Prefixes are sampled, not all enumerated. Votor's forwarding is checked by handing the bundle to a real Votor that has seen every event the pool emitted so far (recording All2All, no timers fire); the real standstill loop (hook H1) additionally runs in the cluster worlds.",
    "DESIGN.md §7 C18"),
  "C17": ("exploration",
    "Caller-thread simulation: every shipped committee strategy (IID stake-weighted / uniform / Turbine-work, decaying acceptance, partition, Fait-Accompli 1 with both fallbacks, Fait-Accompli 2) is constructed for sampled validator sets (1-40 validators; equal, skewed, whale-under-threshold, exact-threshold, heavy-tail stakes, stakes exactly on j/k seat boundaries, lamport-scale stakes, zero-stake members) and shared by 1-3 real caller threads, each drawing committees from its own seeded random source; the threads are parked at every scheduling point (hook H7 ahead of each acquisition of the sampler's shared rejection counters, call boundaries) and released one at a time by the seeded scheduler, so one seed is one interleaving. Checked per committee: equals what a private instance returns for the same set and random source (a function of set and random source only, whatever other callers do), exactly k members of the set, no zero-stake member, >= floor(f*k) seats under the Fait-Accompli samplers (exact integer arithmetic), <= ceil(max_samples) seats under decaying acceptance; construction and sampling must not panic.",
